@@ -25,7 +25,7 @@ var properties = map[string][]harnessSpec{
 		{Name: "op.VerifC14Laws", Marks: end},
 	},
 	"C15": {
-		{Name: "note.VerifC15Semitone", Solver: "cvc5-int", Quick: map[string]int{"C15.maxN": 64}, Thorough: map[string]int{"C15.maxN": 4096}, Marks: end},
+		{Name: "note.VerifC15Semitone", Solver: "cvc5-int", Quick: map[string]int{"C15.maxN": 64}, Thorough: map[string]int{"C15.maxN": 1024}, Marks: end},
 		{Name: "note.VerifC15SemitoneUnbounded", Solver: "cvc5-int", Marks: end, MustTerminate: true},
 		{Name: "note.VerifC15AddDegree", Solver: "cvc5-int", Quick: map[string]int{"C15.maxAdd": 15}, Thorough: map[string]int{"C15.maxAdd": 64}, Marks: []string{"end", "refused"}},
 		{Name: "note.VerifC15ParseDegree", Solver: "cvc5-int", Quick: map[string]int{"C15.digits": 2}, Thorough: map[string]int{"C15.digits": 3}, Marks: end},
@@ -93,6 +93,7 @@ var properties = map[string][]harnessSpec{
 	},
 	"C11": {
 		{Name: "input/ast.VerifC11Trivia", Quick: map[string]int{"C11.window": 3}, Thorough: map[string]int{"C11.window": 4}, Marks: end, MustTerminate: true},
+		{Name: "input/ast.VerifC11TriviaBetween", Quick: map[string]int{"C11.between": 3}, Thorough: map[string]int{"C11.between": 4}, Marks: []string{"end", "skipped"}, MustTerminate: true},
 		{Name: "input/ast.VerifC11Underscore", Quick: map[string]int{"C11.symbol": 3}, Thorough: map[string]int{"C11.symbol": 4}, Marks: []string{"end", "not-a-plain-symbol"}, MustTerminate: true},
 		{Name: "astconv.VerifC11LeadingZeros", Quick: map[string]int{"C11.digits": 2}, Thorough: map[string]int{"C11.digits": 4}, Marks: []string{"end", "converted"}},
 		{Name: "astconv.VerifC11Accidental", Marks: []string{"end", "honoured", "not-an-accidental"}},
@@ -109,7 +110,9 @@ var properties = map[string][]harnessSpec{
 		{Name: "note.VerifC12SemitoneOrder", Marks: end},
 		{Name: "cmd.VerifC12KeyConvOutput", Marks: end},
 		{Name: "cmd.VerifC12KeyListOutput", Marks: end},
+		{Name: "chord.VerifC12BuildOrder", Marks: end},
 		{Name: "cmd.VerifC12IOPaths", Marks: []string{"end", "failed", "printed"}},
+		{Name: "cmd.VerifC12DebugFlag", Marks: []string{"end", "failed"}},
 		{Name: "astconv.VerifC05Classifier", Quick: map[string]int{"C05.maxChords": 2, "C05.preemptions": 1}, Thorough: map[string]int{"C05.maxChords": 3, "C05.preemptions": 2}, Marks: []string{"end", "classified", "refused"}},
 		{Name: "op.VerifC14Chain", Quick: map[string]int{"C14.maxLen": 2}, Thorough: map[string]int{"C14.maxLen": 3}, Marks: end},
 	},
